@@ -394,6 +394,7 @@ type fakeRefresher struct {
 	// startCancelled: the scenario cancelled the context given to Start (refresh contexts derived from it are
 	// then done from the beginning; the refreshes must happen all the same)
 	startCancelled bool
+	shutDone       bool // the context of Shutdown is done already: so is the context of the final refresh
 	clock          *fakeClock
 }
 
@@ -414,7 +415,7 @@ func (f *fakeRefresher) Refresh(ctx context.Context) error {
 		return err
 	}
 	f.n++
-	if ctx.Err() != nil && !f.startCancelled {
+	if ctx.Err() != nil && !f.startCancelled && !f.shutDone {
 		f.log.add("refresh got a context that is already done")
 	}
 	return err
@@ -441,6 +442,24 @@ type refCase struct {
 	ShutdownInRefresh bool `json:"shutdown_during_a_refresh"`
 	// ZeroDelays: the schedule answers 0 every second time.
 	ZeroDelays bool `json:"schedule_returns_zero"`
+	// ShutCtxDone: the context handed to Shutdown is already done (1 cancelled, 2 past its deadline), as it is
+	// when an earlier service has used up the shared shutdown timeout.  The final refresh is still Shutdown's job.
+	ShutCtxDone int `json:"shutdown_context_already_done"`
+}
+
+func shutdownCtx(mode int) context.Context {
+	ctx := context.WithValue(context.Background(), "which", "shutdown")
+	switch mode {
+	case 1:
+		c, cancel := context.WithCancel(ctx)
+		cancel()
+		return c
+	case 2:
+		c, cancel := context.WithDeadline(ctx, time.Now().Add(-time.Second))
+		_ = cancel
+		return c
+	}
+	return ctx
 }
 
 func runRefresh(c refCase) (what string, checks int) {
@@ -597,7 +616,8 @@ func runRefresh(c refCase) (what string, checks int) {
 				// final refresh (when configured) and return its error; the interrupted iteration may
 				// finish its bookkeeping afterwards, but nothing may be refreshed again.
 				before := len(refr.ctxs)
-				shutCtx := context.WithValue(context.Background(), "which", "shutdown")
+				shutCtx := shutdownCtx(c.ShutCtxDone)
+				refr.shutDone = c.ShutCtxDone != 0
 				var serr error
 				done := false
 				go func() { serr = w.Shutdown(shutCtx); done = true }()
@@ -653,7 +673,8 @@ func runRefresh(c refCase) (what string, checks int) {
 			}
 		}
 		// Shutdown at quiescence
-		shutCtx := context.WithValue(context.Background(), "which", "shutdown")
+		shutCtx := shutdownCtx(c.ShutCtxDone)
+		refr.shutDone = c.ShutCtxDone != 0
 		cons.parent = shutCtx
 		var serr error
 		done := false
@@ -757,7 +778,7 @@ func TestRefresh(t *testing.T) {
 						if !onShut && ff {
 							continue
 						}
-						c := refCase{ticks, onShut, ff, nilOpt, onShut && (v+k)%2 == 1, false, (v+k)%5 == 2}
+						c := refCase{ticks, onShut, ff, nilOpt, onShut && (v+k)%2 == 1, false, (v+k)%5 == 2, []int{0, 1, 0, 2}[(v+2*k)%4]}
 						if k > 0 && (v+k)%3 == 0 {
 							c.TickInFinal, c.ShutdownInRefresh = false, true
 						}
@@ -776,7 +797,7 @@ func TestRefresh(t *testing.T) {
 		w, n := runRefresh(c)
 		r.Eval(int64(n))
 		if w != "" {
-			r.Violation(fmt.Sprintf("refresh:%v", c), fmt.Sprintf("RefreshWorker with tick outcomes (true=error) %v, RefreshOnShutdown=%v, final refresh fails=%v, optional fields nil=%v, tick during the final refresh=%v, Shutdown during a refresh=%v, schedule returns 0=%v: %s", c.Ticks, c.OnShutdown, c.FinalFails, c.NilOpt, c.TickInFinal, c.ShutdownInRefresh, c.ZeroDelays, w), c)
+			r.Violation(fmt.Sprintf("refresh:%v", c), fmt.Sprintf("RefreshWorker with tick outcomes (true=error) %v, RefreshOnShutdown=%v, final refresh fails=%v, optional fields nil=%v, tick during the final refresh=%v, Shutdown during a refresh=%v, schedule returns 0=%v, Shutdown's context already done=%d: %s", c.Ticks, c.OnShutdown, c.FinalFails, c.NilOpt, c.TickInFinal, c.ShutdownInRefresh, c.ZeroDelays, c.ShutCtxDone, w), c)
 		}
 	})
 	// the ErrorHandler implementation the package ships: one log record per error, at the configured level,
@@ -818,7 +839,7 @@ func TestRefresh(t *testing.T) {
 	r.NontrivialN(total)
 	r.Count("scenarios", total)
 	r.Exhaustive(fmt.Sprintf("every sequence of 0..%d ticks x refresh outcome {nil, error} per tick, then Shutdown x RefreshOnShutdown x final outcome, then a late tick; with instrumented and with nil optional config fields; log checked after every injected event", maxTicks))
-	r.Sample(map[string]any{"case": refCase{[]bool{false, true}, true, true, false, false, false, false}, "expected_log": "until#1 1000 | after 1000 | new 1 | refresh ctx=1 | cancel 1 | until#2 2000 | after 2000 | new 2 | refresh ctx=2 | cancel 2 | handle refresh-error-1 | until#3 3000 | after 3000 | new 3 | refresh ctx=3 | cancel 3"})
+	r.Sample(map[string]any{"case": refCase{[]bool{false, true}, true, true, false, false, false, false, 0}, "expected_log": "until#1 1000 | after 1000 | new 1 | refresh ctx=1 | cancel 1 | until#2 2000 | after 2000 | new 2 | refresh ctx=2 | cancel 2 | handle refresh-error-1 | until#3 3000 | after 3000 | new 3 | refresh ctx=3 | cancel 3"})
 	if r.Finish() > 0 {
 		t.Fail()
 	}
